@@ -58,7 +58,7 @@ def gen_plan(rng, tier, index):
     rng.shuffle(events)
     plan = {'mode': mode, 'shape': shape, 'bits': bits, 'radius': rng.pick(RADII), 'threshold': rng.pick(THRESH),
             'events': events, 'method': rng.pick(['euclidean', 'correlation', 'euclidean', 'correlation', 'mahalanobis', 'crossnobis', 'poisson']),
-            'mask_dtype': rng.pick(['bool', 'bool', 'int8', 'float64', 'int64']), 'containers': rng.pick([0, 0, 1, 2, 3, 4]), 'peek': rng.chance(0.3), 'events_as': rng.pick(['list', 'array']),
+            'mask_dtype': rng.pick(['bool', 'bool', 'int8', 'float64', 'int64']), 'containers': rng.pick([0, 0, 1, 2, 3, 4]), 'peek': rng.chance(0.3), 'prehistory': rng.chance(0.3), 'events_as': rng.pick(['list', 'array']),
             'sched': {'n_jobs': rng.pick([1, 2, 3, 4, 8, 16, -1]), 'batch': rng.randint(1, 4),
                       'policy': rng.pick(['random', 'random', 'lifo', 'fifo']),
                       'straggler': rng.pick([None, None, 0, 1, 5]), 'seed': rng.randrange(10 ** 9)},
@@ -173,6 +173,15 @@ def check_geometry(ctx, mask, radius, threshold, tag=''):
     ref = brute_geometry(mask, radius, threshold)
     n_sure = sum(1 for _, oc in ref if all(a for _, a in oc))
     desc = f'mask shape {list(mask.shape)} {mask.astype(int).ravel().tolist() if mask.size <= 40 else "(%d voxels set)" % int(mask.sum())}, radius {radius}, threshold {threshold}'
+    if tag == 'prehistory':
+        # an earlier analysis in the same session: the same radius on a volume thinner than the radius along one axis,
+        # and a larger radius on this volume (whatever the first calls leave behind must not shape later ones)
+        try:
+            get_volume_searchlight(np.ones((1,) + tuple(mask.shape[1:]), dtype=bool), radius=radius, threshold=0.5)
+            get_volume_searchlight(np.ones(mask.shape, dtype=bool), radius=radius + 1, threshold=1.0)
+        except Exception:
+            pass
+        ctx.probe('geometry_prehistory')
     try:
         centers, neighbors = get_volume_searchlight(mask, radius=radius, threshold=threshold)
     except Exception as e:
@@ -343,7 +352,7 @@ def execute(plan, ctx):
         mask = np.asfortranarray(mask)                      # same values, Fortran memory order
     elif lay == 'T':
         mask = np.ascontiguousarray(mask.transpose(2, 1, 0)).transpose(2, 1, 0)      # a transposed view
-    res = check_geometry(ctx, mask, plan['radius'], plan['threshold'])
+    res = check_geometry(ctx, mask, plan['radius'], plan['threshold'], tag='prehistory' if plan.get('prehistory') else '')
     shape_class = 'x'.join(str(min(s, 4)) for s in shape)
     if mode == 'geom' or res is None:
         ctx.behaviour('geom', shape_class, round(plan['radius'], 2), plan['threshold'], int(mask.sum()) > 0)
